@@ -59,7 +59,7 @@ BODIES = ['valid', 'empty', 'baddigit', 'badb64', 'deepjson', 'p17', 'p1000',
 TRANSP = ['polling', 'websocket', 'foo']
 JP = [None, '0', 'abc']
 SRV = ['T', 'A']
-API = ['send', 'disconnect-sid', 'disconnect-all']
+API = ['send', 'disconnect-sid', 'disconnect-all', 'send-burst']
 API_STATES = ['none'] + STATES[1:]
 PI, PT = 25, 20
 
@@ -365,6 +365,12 @@ def run_api(rec, case):
         sid, keep = prepare(sim, state)
         if call == 'send':
             t = sim.app_call('send', sid or 'nosuchsidAAAAAAAAAAA', 'data')
+        elif call == 'send-burst':
+            # far more packets than any client collects at once: the
+            # application's calls return all the same
+            rec.count('send_bursts')
+            t = sim.app_seq([('send', (sid or 'nosuchsidAAAAAAAAAAA',
+                                       'burst-%d' % k)) for k in range(400)])
         elif call == 'disconnect-sid':
             t = sim.app_call('disconnect', sid or 'nosuchsidAAAAAAAAAAA')
         else:
